@@ -19,7 +19,7 @@ use crate::{
         DLT_STD_HDR_HAS_ECU_ID, DLT_STD_HDR_HAS_EXT_HDR, DLT_STD_HDR_HAS_TIMESTAMP,
         DLT_STD_HDR_VERSION, SERVICE_ID_GET_LOG_INFO,
     },
-    utils::{get_apid_for_tag, utc_time_from_us, US_PER_SEC},
+    utils::{get_apid_for_tag, truncate_str, utc_time_from_us, US_PER_SEC},
 };
 
 pub struct LogCat2DltMsgIterator<'a, R> {
@@ -143,6 +143,8 @@ impl<'a, R: BufRead> LogCat2DltMsgIterator<'a, R> {
         if tag.is_empty() {
             return None;
         }
+        // the description needs to fit into the message (15 = service id, status, nr of apids, apid, nr of ctids, desc. len)
+        let tag = truncate_str(tag, (u16::MAX - self.len_wo_payload) as usize - 15);
 
         let mut payload: Vec<u8> = SERVICE_ID_GET_LOG_INFO.to_ne_bytes().into();
         let apid_buf = apid.as_buf();
